@@ -176,6 +176,11 @@ def stale_pointers(prog, chk, rid, files=("Xml.cpp", "Json.cpp", "String.cpp")):
                                 if nd not in d[2]:
                                     d[2].append(nd)
                                     changed = True
+        # only pointers go stale: a length or offset computed from two of them (`written = dest - destStart`) is a number
+        def _is_ptr(did_):
+            t_ = next((x["ref"].get("t") or "" for x in f.nodes if x["k"] == "DeclRefExpr" and x["ref"].get("id") == did_), "*")
+            return "*" in t_ or "&" in t_ or "[" in t_
+        derived = {d_: v_ for d_, v_ in derived.items() if _is_ptr(d_)}
         if not derived:
             continue
         for did, (nm, Ss, dn) in derived.items():
